@@ -60,7 +60,12 @@ def stepCmd (c : CS) (l : Line) : CS :=
       if mrsp = rsp then c else mism c s!"header rejected: model {hexOfBytes mrsp} impl {l.str "rsp"}"
   | .unused =>
       let c := branch c s!"unused/tag={tagClass rt}"
-      if mrsp = rsp then c else mism c s!"ordinal not in table: model {hexOfBytes mrsp} impl {l.str "rsp"}"
+      if mrsp = rsp then c
+      else if rc = TPM_INVALID_AUTHHANDLE then
+        -- TPM_Process_Preprocess failed before the table was consulted: the only preprocessing step that answers
+        -- TPM_INVALID_AUTHHANDLE is the termination of an exclusive transport session that no longer exists
+        mism c s!"SPEC[exclusive-transport-wedge] an ordinal that is not in the table is answered TPM_INVALID_AUTHHANDLE: tpm_stany_flags.transportExclusive names a transport session that is gone, every ordinal is refused until TPM_Init (request {l.str "req"})"
+      else mism c s!"ordinal not in table: model {hexOfBytes mrsp} impl {l.str "rsp"}"
   | .preError => c
   | .initialOnly =>
       let ord := ((parseHeader req).map (·.ord)).getD 0
